@@ -90,9 +90,11 @@ def expand(c, name, argmap, depth=0, seen=()):
 def run(ctx):
     ctx.explanation = ("The composite law checkers of lattices::algebra are conjunctions of base laws. Decided from the MIR call graph with argument wiring: the transitive set of "
                        "(base law, which operation/element it is applied to) of each composite contains the textbook definition (abstract algebra is the oracle), every "
-                       "component verdict is `?`-propagated and Ok(()) is reached only after all components ran.")
-    ctx.undecided = "that each base law checker enumerates all tuples and tests the right equation; the laws of the semiring applications"
+                       "component verdict is `?`-propagated and Ok(()) is reached only after all components ran. Base laws: the two sides of every equality test are rebuilt from the MIR as terms over "
+                       "the operation parameters and the loop variables and compared with the textbook equation (this found the linearity checker testing the anti-homomorphism equation, repaired by a fix: commit).")
+    ctx.undecided = "that cartesian_power enumerates every tuple; PartialEq of the carrier; the laws of the shipped semiring applications (value-level)"
     c = mir.load_crate("lattices")
+    law_rule(ctx, c)
     R_CONJ = ctx.rule("C09.conj", "each composite checker transitively applies at least the base laws of its textbook definition, to the right operations/elements", floor=11)
     R_ERR = ctx.rule("C09.err", "inside a composite, every component verdict is propagated with `?` and Ok(()) is returned only after every component was called", floor=11)
     for name, want in sorted(ORACLE.items()):
@@ -130,3 +132,76 @@ def run(ctx):
             for ob in ok_blocks:
                 if not b.all_paths_pass({bb}, {ob})[0]:
                     ctx.violation(R_ERR, "%s|ok-without:%s" % (key, callee), "Ok(()) can be returned without `%s` having been called" % callee, b.loc(ob))
+
+
+# textbook equations of the base laws, written over the checker's parameters by position (p1 = items) and the loop variables in order of
+# first appearance; ('must_eq'|'must_ne', lhs, rhs).  The oracle is abstract algebra, not the current code.
+LAWS = {
+    "associativity": [("must_eq", "p2(v0,p2(v1,v2))", "p2(p2(v0,v1),v2)")],
+    "commutativity": [("must_eq", "p2(v0,v1)", "p2(v1,v0)")],
+    "idempotency": [("must_eq", "p2(v0,v0)", "v0")],
+    "identity": [("must_eq", "p2(p3,v0)", "v0"), ("must_eq", "p2(v0,p3)", "v0")],
+    "left_distributes": [("must_eq", "p3(v0,p2(v1,v2))", "p2(p3(v0,v1),p3(v0,v2))")],
+    "right_distributes": [("must_eq", "p3(p2(v0,v1),v2)", "p2(p3(v0,v2),p3(v1,v2))")],
+    "absorbing_element": [("must_eq", "p2(v0,p3)", "p3"), ("must_eq", "p2(p3,v0)", "p3")],
+    "inverse": [("must_eq", "p2(v0,p4(v0))", "p3"), ("must_eq", "p2(p4(v0),v0)", "p3")],
+    "nonzero_inverse": [("must_eq", "p2(v0,p5(v0))", "p3"), ("must_eq", "p2(p5(v0),v0)", "p3")],
+    "no_nonzero_zero_divisors": [("must_ne", "p2(v0,v1)", "p3"), ("must_ne", "p2(v1,v0)", "p3")],
+    "linearity": [("must_eq", "p4(p2(v0,v1))", "p3(p4(v0),p4(v1))")],
+    "bilinearity": [("must_eq", "p6(p3(v0,v1),v2)", "p5(p6(v0,v2),p6(v1,v2))"), ("must_eq", "p6(v0,p4(v2,v3))", "p5(p6(v0,v2),p6(v0,v3))")],
+}
+
+
+def law_rule(ctx, c):
+    """base law checkers test the textbook equation, on loop variables that range over the carrier"""
+    import lawterms
+    R = ctx.rule("C09.law", "each base law checker compares exactly the two sides of its textbook equation (terms rebuilt from the MIR) and returns Err exactly on the violating outcome", floor=12)
+    for name, want in sorted(LAWS.items()):
+        b = c.bodies.get(MOD + name)
+        key = "lattices|algebra::" + name
+        if b is None:
+            ctx.anchor_missing(R, "fn " + MOD + name)
+            continue
+        eqs, T = lawterms.equations(b)
+        got = [(r, l, rr) for r, l, rr, _bb in eqs if r != "guard"]
+        ctx.inst(R, key, sites=len(eqs), sample={"equations": [(r, l, rr) for r, l, rr, _ in eqs]})
+
+        def norm(e):
+            r, l, rr = e
+            return (r,) + tuple(sorted((l, rr)))
+        gs = sorted(norm(e) for e in got)
+        ws = sorted(norm(e) for e in want)
+        if gs != ws:
+            ctx.violation(R, key + "|wrong-equation", "`%s` tests %s but its law is %s" % (name, ["%s: %s vs %s" % e for e in got], ["%s: %s vs %s" % e for e in want]), b.loc())
+        # loop variables range over the carrier: every iterator that yields a loop variable is built from the `items` parameter(s)
+        for (nl, idx), v in sorted(T.loopvars.items(), key=lambda x: x[1]):
+            if not _iter_from_items(b, nl):
+                ctx.violation(R, key + "|carrier:" + v, "loop variable %s of `%s` does not range over the carrier passed in" % (v, name), b.loc())
+
+
+def _iter_from_items(b, next_result_local, depth=0):
+    """the Option returned by next() comes from an iterator that was built (cartesian_power / into_iter / iter) from a slice/array parameter"""
+    work = [next_result_local]
+    seen = set()
+    while work:
+        l = work.pop()
+        if l in seen:
+            continue
+        seen.add(l)
+        if 1 <= l <= b.argc:
+            return "[" in b.locals[l]
+        for bb, idx, rv in b.defs_of(l):
+            if idx == "term":
+                if rv["k"] == "call":
+                    for a in rv["a"][:1]:
+                        p = op_place(a)
+                        if p is not None:
+                            work.append(pl_local(p))
+            else:
+                for o in rv.get("ops", []):
+                    p = op_place(o)
+                    if p is not None:
+                        work.append(pl_local(p))
+                if "p" in rv:
+                    work.append(pl_local(rv["p"]))
+    return False
